@@ -80,7 +80,7 @@ impl Bus {
             false
         };
         for d in self.drops.iter_mut() {
-            *d -= 1;
+            *d = d.saturating_sub(1);
         }
         self.tx_count += 1;
         self.txs.push(Transmission { start: now, sender: i, bytes, dropped });
@@ -213,7 +213,7 @@ fn traffic_answers(rng: &mut Rng, ts: u8, others: &[u8], n: usize, appetite: u64
 }
 
 pub fn gen(ops: &mut Vec<String>, seed: u64, thorough: bool) {
-    let ncases = if thorough { 120 } else { 10 };
+    let ncases = if thorough { 60 } else { 9 };
     for case in 0..ncases {
         let mut rng = Rng::new(seed, "net", case);
         let rate = *rng.pick(&[500_000u64, 1_500_000, 187_500]);
@@ -257,7 +257,9 @@ pub fn gen(ops: &mut Vec<String>, seed: u64, thorough: bool) {
             r
         };
         let slot_t = (slot * 1_000_000 / rate) as i64;
-        let period = (slot_t / 4).max(2);
+        // poll period: two thirds of the cases poll fast (Tsl/10), one third at the limit of C01's quantifier
+        // (Tsl/4), where known finding K3 (late start after token receipt) can occur
+        let period = if case % 3 == 1 { (slot_t / 4).max(2) } else { (slot_t / 10).max(2) };
         for (i, &k) in napps_v.iter().enumerate() {
             for a in 0..k {
                 let others: Vec<u8> = addrs.iter().copied().filter(|x| *x != addrs[i]).collect();
